@@ -40,6 +40,9 @@ type c16Case struct {
 	// Via: "unmarshal" feeds the documents to Unmarshal; "load" writes each to the same file and calls
 	// Load(path), the way the file watcher reloads a configuration
 	Via string `json:"via"`
+	// Lazy: a successfully loaded configuration is collected from Config() only after the next document
+	// has been fed, when that document is one a fresh loader refuses (the consumer was not scheduled yet)
+	Lazy bool `json:"lazy,omitempty"`
 }
 
 func (d c16Doc) render(format string) []byte {
@@ -146,7 +149,8 @@ func mutateCfg(t *rapid.T, prev cfggen.Config) (cfggen.Config, string) {
 }
 
 func genC16(t *rapid.T) (c16Case, []string) {
-	c := c16Case{Format: rapid.SampledFrom([]string{"yaml", "json"}).Draw(t, "format"), Via: rapid.SampledFrom([]string{"unmarshal", "load", "load"}).Draw(t, "via")}
+	c := c16Case{Format: rapid.SampledFrom([]string{"yaml", "json"}).Draw(t, "format"), Via: rapid.SampledFrom([]string{"unmarshal", "load", "load"}).Draw(t, "via"),
+		Lazy: rapid.Bool().Draw(t, "lazy_collect")}
 	w := cfggen.GenWorld(t)
 	cur := w.Cfg
 	if rapid.Bool().Draw(t, "start_with_filters") {
@@ -236,12 +240,57 @@ func runC16(t failer, c c16Case) (lastGood int) {
 	}
 	var published []pub
 	lastGood = -1
+	// collect takes the configuration published for document i off the channel and compares it
+	collect := func(i int, d c16Doc, want config.ServerConfig, after string) {
+		var got config.ServerConfig
+		select {
+		case got = <-l.Config():
+		default:
+			if after != "" {
+				fail("published-config-lost", "document %d loaded without error; before its configuration was collected %s, and now nothing is on the channel: the last good configuration never comes into force", i, after)
+			}
+			fail("nothing-published", "document %d loaded without error but nothing was published", i)
+		}
+		gs, ws := snapshot(got), snapshot(want)
+		if !reflect.DeepEqual(normJSON(gs), normJSON(ws)) {
+			fail("reload-differs-from-fresh", "document %d (%s): configuration published after reload differs from what a fresh loader publishes\n reload=%s\n fresh =%s", i, d.Kind, clipStr(gs), clipStr(ws))
+		}
+		published = append(published, pub{idx: i, val: got, snap: gs})
+	}
+	type pendingPub struct {
+		idx  int
+		doc  c16Doc
+		want config.ServerConfig
+	}
+	var pending *pendingPub
 	for i, d := range c.Docs {
 		doc := d.render(c.Format)
-		err := feed(l, c.Via, dir, doc)
 		// what does a fresh loader say about this document?
 		fresh := newDocLoader(c.Format)
 		ferr := feed(fresh, c.Via, freshDir, doc)
+		if pending != nil && ferr == nil {
+			// a document that loads would block on the full channel: collect first
+			collect(pending.idx, pending.doc, pending.want, "")
+			pending = nil
+		}
+		var err error
+		if pending == nil {
+			err = feed(l, c.Via, dir, doc)
+		} else {
+			// fed while the previous configuration is still on the channel; should the loader accept the
+			// document after all it blocks on the channel, so the collection below has to unblock it
+			ev.Class("refused-document-fed-before-collection")
+			done := make(chan error, 1)
+			go func() { done <- feed(l, c.Via, dir, doc) }()
+			select {
+			case err = <-done:
+				collect(pending.idx, pending.doc, pending.want, fmt.Sprintf("document %d (%s, refused) was fed", i, d.Kind))
+			case <-time.After(5 * time.Second):
+				collect(pending.idx, pending.doc, pending.want, "")
+				err = <-done
+			}
+			pending = nil
+		}
 		if (err == nil) != (ferr == nil) {
 			fail("acceptance-depends-on-history", "document %d (%s): loader with history returned %v, a fresh loader %v", i, d.Kind, err, ferr)
 		}
@@ -252,18 +301,12 @@ func runC16(t failer, c c16Case) (lastGood int) {
 			default:
 			}
 		} else {
-			var got, want config.ServerConfig
-			select {
-			case got = <-l.Config():
-			default:
-				fail("nothing-published", "document %d loaded without error but nothing was published", i)
+			want := <-fresh.Config()
+			if c.Lazy && i+1 < len(c.Docs) {
+				pending = &pendingPub{idx: i, doc: d, want: want}
+			} else {
+				collect(i, d, want, "")
 			}
-			want = <-fresh.Config()
-			gs, ws := snapshot(got), snapshot(want)
-			if !reflect.DeepEqual(normJSON(gs), normJSON(ws)) {
-				fail("reload-differs-from-fresh", "document %d (%s): configuration published after reload differs from what a fresh loader publishes\n reload=%s\n fresh =%s", i, d.Kind, clipStr(gs), clipStr(ws))
-			}
-			published = append(published, pub{idx: i, val: got, snap: gs})
 			lastGood = i
 		}
 		// everything published earlier must still be what it was
